@@ -10,11 +10,21 @@ RUN = r'^rip_tools::runtime::ToolRunner::run$'
 MAXC = 'DEFAULT_MAX_TOOL_CALLS'
 
 
+def loop_body(P):
+    """the agent loop with the per-call helpers of the session module spliced in (`run_function_call(env, seq, &call)`):
+    whatever runs a tool / consults tool_choice / records side effects is read as part of the loop."""
+    if not hasattr(P, '_agent_loop'):
+        from ..inline import inline_calls, contains
+        w = contains(rx_calls=RUN + r'|ToolChoiceEnforcement::allows_function$|append_tool_side_effects$')
+        P._agent_loop = inline_calls(P, P.body(LOOP), lambda body, callee: callee.startswith('ripd::session::') and not re.search(r'::(run_openresponses_agent_loop|stream_openresponses_request|summarize_continuity_tool_side_effects|tool_events_to_function_call_output|rejected_tool_invocation_events)$', callee) and w(body, callee), depth=2)
+    return P._agent_loop
+
+
 def counted_every_iteration(P):
     """every iteration of the per-call loop of the agent loop that comes back to the loop head passed the
     increment of the bounded call counter: a call that is answered without being counted (refused by
     tool_choice, invalid arguments, ...) lets a provider that keeps sending such calls drive the run for ever."""
-    f = P.body(LOOP)
+    f = loop_body(P)
     runs = f.calls(RUN)
     cands = set()
     for (bi, on, ts, els) in switches(f):
@@ -53,7 +63,7 @@ def run(ctx):
     ctx.rule('C16.4', 'one answer per call: every iteration of `for call in tool_calls` that comes back to the loop head passed exactly one tool_outputs.push whose call id is call.call_id; the collector is constructed per request.')
     ctx.rule('C16.5', 'history only grows: after initialisation history_items is only pushed / extended / cloned; and between the history and the request body (request builders, payload builder, the loop itself) no filter / dedup / truncation is applied to a sequence of request items.')
 
-    f = P.body(LOOP)
+    f = loop_body(P)
     ctx.touch(f)
     runs = f.calls(RUN)
     ctx.floor('C16.1', 'run sites in the agent loop', len(runs), 2)
@@ -304,6 +314,9 @@ def run(ctx):
                 # the one sanctioned ordering: by the provider's output_index
                 o_ = g.origin(s_.args[1]) if len(s_.args) > 1 else ('?',)
                 cl_ = P.fns.get(o_[1].get('def')) if o_[0] == 'rv' and o_[1].get('ak') == 'closure' else None
+                if cl_ is None and o_[0] == 'const':
+                    # a named key function (`sort_by_key(provider_output_order)`)
+                    cl_ = P.fns.get(str(o_[1].get('def') or o_[1].get('fn') or ''))
                 if cl_ is not None and any(isinstance(pp, dict) and pp.get('n') == 'output_index' for b_ in cl_.blocks for st_ in b_['s'] for pl_ in [st_.get('rv', {}).get('pl'), op_place(st_.get('rv', {}).get('a', [{}])[0]) if st_.get('rv', {}).get('a') else None] if pl_ for pp in pl_.get('p', [])):
                     continue
             bad8.append((g, s_))
